@@ -37,7 +37,7 @@ struct Peer {
 
 impl Peer {
 	fn id_json(&self, n: i64) -> String {
-		let n = if n >= 1_000_000 { u64::MAX.to_string() } else { n.to_string() };
+		let n = num_as_u64(n).to_string();
 		if self.string_ids { format!("\"{n}\"") } else { n }
 	}
 	fn sub_json(&self, s: i64) -> String {
@@ -102,8 +102,9 @@ fn gen_single(rng: &mut StdRng, seen: &[i64], max_seen: i64, menu: &[&str]) -> O
 			if seen.is_empty() {
 				return None;
 			}
-			let id = match rng.random_range(0..20) {
+			let id = match rng.random_range(0..24) {
 				0 => max_seen + 7,
+				1 => [999_999, 999_998][rng.random_range(0..2)],
 				_ => seen[rng.random_range(0..seen.len())],
 			};
 			let (ok, sub) = match rng.random_range(0..6) {
@@ -159,7 +160,7 @@ pub fn run(gname: &str, nscen: usize, out_path: &str) {
 
 async fn scenario(g: &Group, rng: &mut StdRng, sc: usize, panics: &Arc<parking_lot::Mutex<Vec<String>>>) -> Vec<Value> {
 	let string_ids = sc % 3 == 2;
-	let rig = build(g.max_queue, g.buf_cap, string_ids, Duration::from_secs(4));
+	let rig = build(g.max_queue, g.buf_cap, string_ids, Duration::from_secs(4), sc as u64 + seed());
 	let tracer = rig.tracer.clone();
 	tracer.ev(json!({"ev": "Reset", "sc": sc, "group": g.name, "string_ids": string_ids}));
 	let mut slots: BTreeMap<String, SubSlot> = BTreeMap::new();
@@ -208,7 +209,7 @@ async fn scenario(g: &Group, rng: &mut StdRng, sc: usize, panics: &Arc<parking_l
 							let which = rig.wire.lock().iter().filter(|o| o.kind == "batch").map(|o| o.ids.iter().map(id_as_num).collect::<Vec<_>>()).collect::<Vec<_>>();
 							let ids = which[rng.random_range(0..which.len())].clone();
 							let mut ids2 = ids.clone();
-							match rng.random_range(0..8) {
+							match rng.random_range(0..10) {
 								0 => {
 									ids2.remove(rng.random_range(0..ids2.len()));
 								}
@@ -218,6 +219,14 @@ async fn scenario(g: &Group, rng: &mut StdRng, sc: usize, panics: &Arc<parking_l
 								}
 								2 => ids2.push(max_seen + 7),
 								3 => ids2.push(1_000_000),
+								5 => ids2.push([999_999, 999_998][rng.random_range(0..2)]),
+								6 | 7 if ids2.len() > 2 => {
+									// same number of entries, first and last id present, one id repeated in place of another
+									let (a, b) = (rng.random_range(0..ids2.len()), 1 + rng.random_range(0..ids2.len() - 2));
+									if a != b {
+										ids2[b] = ids2[a];
+									}
+								}
 								4 if ids2.len() > 1 => {
 									ids2.remove(0);
 								}
@@ -364,7 +373,17 @@ async fn scenario(g: &Group, rng: &mut StdRng, sc: usize, panics: &Arc<parking_l
 }
 
 fn sizes(rig: &Rig, tracer: &Tracer) {
-	match rig.client.verif_table_sizes() {
+	// the accessor takes the manager's mutex: if a background task panicked while holding it, the lock is poisoned and the
+	// accessor panics too - that is an observation about the code under test, not a harness failure
+	let r = std::panic::catch_unwind(std::panic::AssertUnwindSafe(|| rig.client.verif_table_sizes()));
+	let r = match r {
+		Ok(r) => r,
+		Err(_) => {
+			tracer.ev(json!({"ev": "Panic", "where": "request manager mutex poisoned"}));
+			return;
+		}
+	};
+	match r {
 		Some([r, s, b, n]) => tracer.ev(json!({"ev": "Sizes", "r": r, "s": s, "b": b, "n": n})),
 		None => tracer.ev(json!({"ev": "Sizes", "r": -1, "s": -1, "b": -1, "n": -1})),
 	}
